@@ -487,6 +487,11 @@ Next ==
   \/ \E e \in Engines : EngineReset(e)
 
 Spec == Init /\ [][Next]_vars
+\* liveness is checked only under this fair specification (never under a state constraint)
+FairSpec == Spec /\ WF_vars(Next)
+\* every run completes its span or stops at a failed commit: no phase of the step loop can
+\* get stuck (e.g. waiting for an event that no handler will ever accept)
+RunCompletes == <>((pc = "idle" /\ k = NSteps) \/ pc = "failed")
 
 -----------------------------------------------------------------------------
 (* C01 - events *)
